@@ -151,8 +151,16 @@ func (db *DB) collectGarbage() (collectedCount uint64, done bool, err error) {
 	recycledItems := make([]shed.Item, 0)
 
 	// without batchMu lock, call chunkinfo to remove chunks
+	evicted := make(map[string]struct{}, len(candidates))
 	for _, item := range candidates {
 		addr := boson.NewAddress(item.Address)
+
+		if _, ok := evicted[addr.String()]; ok {
+			// a second (stale) entry of a file evicted by this run:
+			// only the entry is dropped, the file is not removed twice
+			recycledItems = append(recycledItems, item)
+			continue
+		}
 
 		if db.discover.IsDiscover(addr) {
 			db.discover.DelDiscover(addr)
@@ -219,6 +227,7 @@ func (db *DB) collectGarbage() (collectedCount uint64, done bool, err error) {
 		}
 
 		recycledItems = append(recycledItems, item)
+		evicted[addr.String()] = struct{}{}
 	}
 
 	// refresh gcSize value, since it might have
